@@ -16,10 +16,9 @@
    Nothing here is computed on samples: all numbers are universally quantified. *)
 From Coq Require Import List Bool NArith ZArith Arith Lia.
 From BV Require Import Lib.PyStr Lib.Decimal Lib.Types Lib.Regex Lib.RegexParse Lib.Calendar Model.Lexid Gen.Tables
-  Model.V2 Model.Pep440 Model.Rewrite.
-From BV Require Import Proofs.RegexFacts Proofs.DecimalFacts Proofs.Pep440Facts Proofs.DottedFacts
+  Model.V2 Model.Pep440 Model.Rewrite Model.PatAst Model.CalKeys.
+From BV Require Import Proofs.PatPartsBase Proofs.RegexFacts Proofs.DecimalFacts Proofs.Pep440Facts Proofs.DottedFacts
   Proofs.DottedJoinFacts Proofs.TaggedFacts Proofs.IncrFacts.
-From BV Require Import Model.PatAst Model.CalKeys Proofs.PatPartsBase.
 From BV Require Proofs.SemverTagE2E Proofs.CalverE2E.
 Import ListNotations.
 Local Open Scope N_scope.
